@@ -69,7 +69,7 @@ var propRules = map[string]*PropSpec{
 		Technique:  techOwn,
 	},
 	"C04": {
-		Rules:       []string{"F7", "F1", "A1.api32", "F12", "U4", "R2"},
+		Rules:       []string{"F7", "F1", "A1.api32", "F12", "U4", "R2", "LP1"},
 		Explanation: explBase + " C04: the early-termination clause and the purity of iteration are decided; kind dispatch in iterator init / Iterate / Ranges is exhaustive.",
 		Decided: []string{
 			"range-over-func sequences capture only parameters: each traversal creates its own iterator state",
@@ -161,11 +161,11 @@ var propRules = map[string]*PropSpec{
 		Technique:  techErr + "; taint of decoded sizes",
 	},
 	"C11": {
-		Rules:       []string{"F9", "F2", "A1.api32", "A1.slices", "A2.32", "A3.32", "A6.kernel", "U1", "F8.scratch", "A2.64", "A3.64", "F2.repair", "U3", "PT2", "P6", "P2"},
+		Rules:       []string{"F9", "F2", "A1.api32", "A1.slices", "A2.32", "A3.32", "A6.kernel", "U1", "F8.scratch", "A2.64", "A3.64", "F2.repair", "U3", "PT2", "P6", "P2", "LP2"},
 		Explanation: explBase + " C11: singleton behaviour of the aggregate siblings, lazy->repair discipline, inputs and the caller's slice unchanged, scratch containers never end up in the result.",
 		Decided: []string{
 			"roaring64 aggregates store only owned or properly shared buckets",
-			"every aggregate of one bitmap returns a fresh bitmap", "every lazy union result is repaired before it is returned / sent; lazy kernels mark the cardinality invalid", "aggregates never change their inputs' contents nor the caller's slice", "kernel results never alias the argument, so AndAny's reused scratch containers cannot be stored in x", "no 16-bit arithmetic in the key-range partition of ParOr"},
+			"every aggregate of one bitmap returns a fresh bitmap", "every lazy union result is repaired before it is returned / sent; lazy kernels mark the cardinality invalid", "aggregates never change their inputs' contents nor the caller's slice", "kernel results never alias the argument, so AndAny's reused scratch containers cannot be stored in x", "no 16-bit arithmetic in the key-range partition of ParOr", "AndAny's per-key filter list is reset, untouched or known empty on every way back to the loop header"},
 		NotDecided: []string{"key-range partition arithmetic of ParOr", "heap grouping", "that the fold is the right fold", "worker-count independence of the result"},
 		Technique:  techMix,
 	},
@@ -204,14 +204,15 @@ var propRules = map[string]*PropSpec{
 		Technique:  techMix,
 	},
 	"C15": {
-		Rules:       []string{"U1", "A1.api32", "F3.32", "F8.bitmap", "F8.run", "F2", "B8", "U4", "U5"},
+		Rules:       []string{"U1", "A1.api32", "F3.32", "F8.bitmap", "F8.run", "F2", "B8", "U4", "U5", "LP1"},
 		Explanation: explBase + " C15: kernels can express the out-of-chunk sentinels (no 16-bit wrap in the neighbour kernels and drivers) and the queries are pure. Everything else about these functions is value-level.",
 		Decided: []string{
 			"no (value, error) result is used only on the error side of its test (the inverted check that made the walk past the last chunk answer -1)",
 			"no mutator leaves an empty chunk behind (the drivers ask each chunk for its minimum/maximum and ignore the error)",
 			"no 16-bit add/sub in the neighbour queries (3 kinds x 4 kernels + drivers) outside the triaged, reasoned allow-list", "neighbour queries never change the bitmap",
 			"word scans for the next unset bit invert the word before shifting it (a complement of a shifted word is never tested against zero, nor is a position counted on it left unbounded)",
-			"combineLoHi32/16 receive the plain chunk key, never an already shifted keyspace"},
+			"combineLoHi32/16 receive the plain chunk key, never an already shifted keyspace",
+			"no counted loop steps its index both in the for clause and, unconditionally, in its body (the walk over the key table visits every chunk)"},
 		NotDecided: []string{"the cross-chunk walk of NextAbsentValue/PreviousAbsentValue beyond the clauses above (the gap test between consecutive keys)", "binary searches", "agreement of the 'none' sentinels between kinds"},
 		Technique:  "static analysis: integer-width rule over go/ssa with a triaged allow-list; ownership summaries",
 	},
